@@ -378,6 +378,19 @@ class CallMixin(object):
             vec = b.vec
             self.emit(MapAssign(b.pos, e_.pos, [(vec.arr, vec.ty, E.const(0))], [lambda r, val=val: to_real(self.scalar(val, n))]))
             return VOID
+        if name == 'partial_sum':
+            b, e_, o = [self.ev(x) for x in arg_nodes]
+            if not (isinstance(b, IterV) and isinstance(e_, IterV) and isinstance(o, IterV) and b.vec is e_.vec):
+                fail(n, 'partial_sum on something other than vector iterators')
+            src, dst = b.vec, o.vec
+            cnt = e_.pos - b.pos
+            self.obligation((o.pos >= 0) & (o.pos + cnt <= dst.size()), 'partial_sum output range %s' % where(n), 'bounds')
+            def rhs(r, src=src, dst=dst, b=b, o=o):
+                r = E.const(r)
+                return ite(r.eq(0), src.at(b.pos), E.idx(dst.arr, o.pos + r - 1, dst.ty) + src.at(b.pos + r))
+            self.emit(MapAssign(0, cnt, [(dst.arr, dst.ty, o.pos)], [rhs], recurrence=True))
+            self.notes.append('std::partial_sum modelled by its defining recurrence')
+            return IterV(dst, o.pos + cnt)
         if name == 'to_string':
             self.ev(arg_nodes[0])
             return StrTmp(False)
@@ -711,6 +724,13 @@ class CallMixin(object):
 
     def invoke_ctor(self, obj, ctor, argvals, n):
         cls = obj.cls
+        ckey = '%s.ctor%d' % (cls.name, len(params_of(ctor)))
+        contract = self.contracts.get(ckey)
+        if contract is not None and ctor is not self.top_node:
+            contract = contract.select(ctor, len(params_of(ctor)))
+            if contract is not None:
+                self.call_by_contract(contract, obj, cls, ctor, argvals, n)
+                return
         fr = Frame('%s.%s' % (cls.name, 'ctor%d' % len(params_of(ctor))), obj, None, self.fresh('end_ctor'))
         self.bind_params(fr, obj, cls, ctor, argvals, n)
         self.frames.append(fr)
